@@ -906,8 +906,9 @@ def run_sizes(max_len):
                     if not d.maybe_exhausted():
                         fail("Python front end | RangeDecoder.maybe_exhausted | false after decoding exactly the encoded symbols", f"message {msg}")
                     vb = a.num_valid_bits()
-                    if vb > a.num_bits() or vb + 32 <= a.num_bits() and a.num_words() > 2:
-                        fail("Python front end | AnsCoder.num_valid_bits | outside (num_bits - 32, num_bits]", f"message {msg}: {vb} vs {a.num_bits()}")
+                    # (the top word of the 64-bit state holds the marker bit and up to 31 payload bits: num_bits - 32 <= valid < num_bits)
+                    if (vb >= a.num_bits() or vb + 32 < a.num_bits()) and not (vb == 0 and a.num_bits() == 0):
+                        fail("Python front end | AnsCoder.num_valid_bits | outside [num_bits - 32, num_bits)", f"message {msg}: {vb} vs {a.num_bits()}")
                 a.clear(); r.clear()
                 if not a.is_empty() or not r.is_empty() or len(a.get_compressed()) or len(r.get_compressed()):
                     fail("Python front end | clear | coder not empty afterwards", f"message {msg}")
